@@ -114,6 +114,7 @@ func cmdCheck(args []string) int {
 	root := fs.String("root", "/repo/lib", "module root (scratch copy for self-tests)")
 	replay := fs.String("replay", "", "re-run a replay file")
 	noEvidence := fs.Bool("no-evidence", false, "do not write the evidence file (self-tests)")
+	writeBase := fs.Bool("write-baseline", false, "maintainer only: record the obligation families discharged by this run in /verif/baseline/<ID>.json (the accepted tree)")
 	fs.Parse(args[1:])
 	if os.Getenv("VERIF_TIER") == "thorough" {
 		*thorough = true
@@ -257,6 +258,24 @@ func cmdCheck(args []string) int {
 		}
 		lines = append(lines, fmt.Sprintf("  failed obligation: %s :: %s", f.Family, detail))
 	}
+	if *writeBase && violations == 0 {
+		fams := map[string]bool{}
+		for _, fr := range run.Funcs {
+			for _, o := range fr.Obls {
+				if o.Expect != "sat" && o.OK() {
+					fams[o.Family()] = true
+				}
+			}
+		}
+		var names []string
+		for k := range fams {
+			names = append(names, id+"::"+k)
+		}
+		sort.Strings(names)
+		os.MkdirAll("/verif/baseline", 0755)
+		data, _ := json.MarshalIndent(names, "", " ")
+		os.WriteFile(filepath.Join("/verif/baseline", id+".json"), data, 0644)
+	}
 	// known findings that no longer fail are simply not printed (a fixed defect stays fixed)
 	wall := time.Since(start).Seconds()
 	if !*noEvidence {
@@ -322,14 +341,21 @@ func triage(cfg *PropConfig, run *PropRun, f Failure, root string) (string, bool
 
 func loadBaseline() map[string]bool {
 	out := map[string]bool{}
-	data, err := os.ReadFile("/verif/baseline_obligations.json")
-	if err != nil {
-		return out
-	}
+	data, _ := os.ReadFile("/verif/baseline_obligations.json")
 	var names []string
 	json.Unmarshal(data, &names)
 	for _, n := range names {
 		out[n] = true
+	}
+	files, _ := filepath.Glob("/verif/baseline/*.json")
+	for _, f := range files {
+		if data, err := os.ReadFile(f); err == nil {
+			var ns []string
+			json.Unmarshal(data, &ns)
+			for _, n := range ns {
+				out[n] = true
+			}
+		}
 	}
 	return out
 }
